@@ -198,11 +198,21 @@ CHECKS["C12"] = dict(
          "earlier runs are outside: Kani models neither RandomState nor concurrency.",
     design="§4 C12")
 
+CHECKS["C17"] = dict(
+    engine="E2 mirsym (MIR -> z3)", technique="symbolic execution of rustc MIR of the signature-building kernels, z3 term-equality and finite-domain queries, native replay by calling the generated module from Python",
+    text="Bounded symbolic model checking of the signature kernels: convert_def (parameters converted in source order, variadic marker, "
+         "defaults; the function keeps its name), the operator table (CoreFunOp::from recognises exactly the documented dunder names "
+         "and Display prints them back), class.rs init (constructor parameters = the user's or the class arguments, self first), and "
+         "the closures of extract_class that build the inheritance list and key body statements by their own name.",
+    note="RESTRICTED claim (signature kernels): the HashMap through which class bodies are re-ordered is only covered through its keys "
+         "and sort positions (C12); the printer's parameter rendering is replayed, not encoded. Known finding shared with C15: a "
+         "function named `size` is emitted as `__size__`.",
+    design="§4 C17")
+
 NOT_APPLICABLE = {
     "C02": "needs the generator executed on symbolic programs (core::fmt/to_py recursion does not finish in CBMC even on concrete 3-node trees) and membership in Python's grammar as the assertion; no encodable kernel (DESIGN §6)",
     "C04": "oracle is Python's dynamic semantics over whole programs and the subject is the whole checker (HashSet/recursion out of reach of Kani; not loop-free for the MIR executor) (DESIGN §6)",
     "C13": "filesystem, glob and process behaviour have no model in any available solver-based engine; the rest is whole-pipeline (DESIGN §6)",
-    "C17": "the deciding code is extract_class (statements keyed and re-ordered through a HashMap<Core, (usize, Core)>, Context look-ups, recursion over Core): HashMap iteration has no model in either engine and Kani does not get through hashbrown (DESIGN §6)",
 }
 
 PENDING = {}
